@@ -150,6 +150,10 @@ def obligations(tier):
                       'legacy converter, DE48 given as one raw PDS sub-element of 0..992 characters (carrier of up to exactly 999)', _funcs))
     obs.append(Ob('mideu-convert/cp500-latin_1/1014/long-record', ipm_convert('mideu', 'cp500', 'latin_1', True, True, 1, shapes=LONG19[:1], maxvar=None), 1800,
                   'legacy converter, one long record', _funcs))
+    obs.append(Ob('mci_ipm_encode/latin_1-cp500/vbs-1014/2-long-records', ipm_convert('mci_ipm_encode', 'latin_1', 'cp500', False, True, 2, shapes=LONG19[:1], maxvar=None), 1800,
+                  'two long records (DE72, DE127 of every length up to 999): a write may end exactly on a block boundary of the blocked output and the next record crosses the following one', _funcs))
+    obs.append(Ob('mci_ipm_encode/cp500-latin_1/1014-vbs/pds-in-two-carriers', ipm_convert('mci_ipm_encode', 'cp500', 'latin_1', True, False, 1, shapes=[[3, 'PDS0002', 'PDS0158']], maxvar=992), 900,
+                  'a record whose PDS entries (two, 0..992 characters each) may need DE48 and DE62: the converter hands the raw carriers to the writer', _funcs))
     obs.append(Ob('mci_ipm_encode/cp500-latin_1/1014-1014/2rec', ipm_convert('mci_ipm_encode', 'cp500', 'latin_1', True, True, 2, shapes=SHAPES19[:3], maxvar=200), 1800,
                   'two records', _funcs))
     for a, b in (('cp500', 'latin_1'), ('latin_1', 'cp500')):
